@@ -47,3 +47,8 @@ open SamVerif.ErrorSet SamVerif.Layout SamVerif.MirFull SamVerif.TempCounter
 #print axioms pipeline_disjoint
 #print axioms dropped_sync_counterexample
 #print axioms dropped_sync_partial
+#print axioms lowering_order_total
+#print axioms stable_sort_perm_invariant
+#print axioms lowering_order_perm_invariant
+#print axioms zip_order_tie_counterexample
+#print axioms zip_order_partial
